@@ -279,6 +279,9 @@ def simp(e):
     return z3.simplify(e, elim_sign_ext=False)
 
 
+_PROV = {}     # ast id of an extracted byte -> (word, byte index, keepalive)
+
+
 class Event:
     """A call/observation point recorded on a path."""
 
@@ -295,10 +298,12 @@ class State:
         self.st = []                    # x87 stack, top = last
         self.cw = bv(0x037F, 16)
         self.flags = {}                 # name -> Bool or None (undefined)
-        self.frame = {}                 # offset from RSP0 -> byte expr (BV8)
+        self.regions = {}               # region key -> {offset -> (word, byte index)}
+        self.owned = set()              # regions whose map is private to this state (copy-on-write)
+        self.base_arr = None            # array giving unwritten bytes of symbol regions (M0 until an external call)
+        self.spilled_regions = frozenset()
         self.heap = None                # z3 Array
         self.hlog = []                  # recent heap stores (addr, word, nbytes) for exact re-loads
-        self.spilled = False
         self.pc = []                    # path condition (list of Bool)
         self.ip = 0
         self.visits = {}
@@ -319,10 +324,13 @@ class State:
         s.st = list(self.st)
         s.cw = self.cw
         s.flags = dict(self.flags)
-        s.frame = dict(self.frame)
+        s.regions = dict(self.regions)
+        s.owned = set()
+        self.owned = set()
+        s.spilled_regions = self.spilled_regions
+        s.base_arr = self.base_arr
         s.heap = self.heap
         s.hlog = list(self.hlog)
-        s.spilled = self.spilled
         s.pc = list(self.pc)
         s.ip = self.ip
         s.visits = dict(self.visits)
@@ -355,65 +363,123 @@ class State:
         self.regs[op.reg] = simp(new)
 
     # ---- memory ----------------------------------------------------------------------
-    def _stack_off(self, addr):
-        d = simp(addr - self.m.RSP0)
-        if z3.is_bv_value(d):
-            v = d.as_signed_long()
-            return v
-        return None
+    # Regions: "RSP" (this function's stack, addresses RSP0+const) and one per extern symbol
+    # (&sym+const). Region bytes live in per-region maps (no aliasing reasoning needed: distinct
+    # symbols name disjoint objects, and none of them overlaps the stack). Any other address goes
+    # to the z3 Array `heap`. An address that mentions a region base but is not base+const
+    # (symbolic index) makes that region "spilled": its bytes are moved into the array and all
+    # later accesses to it go through the array (sound fallback).
+    def _decompose(self, addr):
+        """addr (simplified) -> (region key, int offset) or (None, None)"""
+        if addr.eq(self.m.RSP0):
+            return "RSP", 0
+        if z3.is_const(addr) and addr.decl().kind() == z3.Z3_OP_UNINTERPRETED:
+            n = addr.decl().name()
+            if n.startswith("&"):
+                return n, 0
+            return None, None
+        if z3.is_app_of(addr, z3.Z3_OP_BADD) and addr.num_args() == 2:
+            a, b = addr.arg(0), addr.arg(1)
+            if z3.is_bv_value(b):
+                a, b = b, a
+            if z3.is_bv_value(a):
+                k, o = self._decompose(b)
+                if k is not None and o == 0:
+                    v = a.as_signed_long()
+                    if -(1 << 24) < v < (1 << 24):
+                        return k, v
+        return None, None
 
-    def _mentions_rsp(self, addr):
-        seen = set()
-        todo = [addr]
-        target = self.m.RSP0
+    def _stack_off(self, addr):
+        k, o = self._decompose(simp(addr))
+        return o if k == "RSP" else None
+
+    def _bases(self, addr):
+        """region bases mentioned arithmetically in addr (values loaded from memory are opaque)"""
+        seen, todo, out = set(), [addr], set()
         while todo:
             e = todo.pop()
             i = e.get_id()
             if i in seen:
                 continue
             seen.add(i)
-            if e.eq(target):
-                return True
+            if e.eq(self.m.RSP0):
+                out.add("RSP")
+                continue
+            if z3.is_const(e) and e.decl().kind() == z3.Z3_OP_UNINTERPRETED and e.decl().name().startswith("&"):
+                out.add(e.decl().name())
+                continue
             if z3.is_app_of(e, z3.Z3_OP_SELECT):
-                continue        # a value LOADED from memory is opaque (an incoming pointer argument on the stack)
+                continue
             todo.extend(e.children())
-        return False
+        return out
 
-    def _fbyte(self, off):
-        ent = self.frame.get(off)
+    def _base_addr(self, key):
+        return self.m.RSP0 if key == "RSP" else self.m.syms[key[1:]]
+
+    def _rbyte(self, key, reg, off):
+        ent = reg.get(off)
         if ent is None:
-            return z3.Select(self.m.M0, simp(self.m.RSP0 + bv(off)))
+            arr = self.m.M0 if key == "RSP" or self.base_arr is None else self.base_arr
+            return z3.Select(arr, simp(self._base_addr(key) + bv(off)))
         w, i = ent
         if w.size() == 8:
             return w
-        return simp(z3.Extract(8 * i + 7, 8 * i, w))
+        e = simp(z3.Extract(8 * i + 7, 8 * i, w))
+        _PROV[e.get_id()] = (w, i, e)      # remember which word this byte came from (bytewise copies)
+        return e
 
-    def _spill(self):
-        if self.spilled:
+    def _spill_region(self, key):
+        if key in self.spilled_regions:
             return
+        reg = self.regions.get(key, {})
         h = self.heap
-        for off in sorted(self.frame):
-            h = z3.Store(h, simp(self.m.RSP0 + bv(off)), self._fbyte(off))
+        base = self._base_addr(key)
+        for off in sorted(reg):
+            h = z3.Store(h, simp(base + bv(off)), self._rbyte(key, reg, off))
         self.heap = h
-        self.frame = {}
+        self.regions[key] = {}
         self.hlog = []
-        self.spilled = True
+        self.spilled_regions = self.spilled_regions | {key}
+
+    @property
+    def spilled(self):
+        return "RSP" in self.spilled_regions
+
+    def _route(self, addr):
+        """-> (key, off) for a region access, or (None, None) for the array"""
+        k, o = self._decompose(addr)
+        if k is not None and k not in self.spilled_regions:
+            return k, o
+        if k is None:
+            bases = self._bases(addr)
+            if bases == {"RSP"} and "RSP" not in self.spilled_regions:
+                c = self.m.semantic_rsp_offset(addr, self.pc)
+                if c is not None:
+                    return "RSP", c
+            for b in bases:
+                self._spill_region(b)
+        return None, None
 
     def load(self, addr, nbytes):
         addr = simp(addr)
-        if not self.spilled:
-            off = self._stack_off(addr)
-            if off is not None:
-                e0 = self.frame.get(off)
-                if e0 is not None and e0[1] == 0 and e0[0].size() == 8 * nbytes:
-                    w = e0[0]
-                    if all((lambda e: e is not None and e[1] == i and e[0] is w)(self.frame.get(off + i))
-                           for i in range(1, nbytes)):
+        k, off = self._route(addr)
+        if k is not None:
+            reg = self.regions.get(k)
+            if reg is None:
+                reg = self.regions[k] = {}
+            e0 = reg.get(off)
+            if e0 is not None and e0[0].size() >= 8 * (e0[1] + nbytes):
+                w, k0 = e0
+                if all((lambda e: e is not None and e[1] == k0 + i and (e[0] is w or e[0].eq(w)))(reg.get(off + i)) for i in range(1, nbytes)):
+                    if k0 == 0 and w.size() == 8 * nbytes:
                         return w
-                bs = [self._fbyte(off + i) for i in range(nbytes)]
-                return simp(z3.Concat(*reversed(bs))) if nbytes > 1 else bs[0]
-            if self._mentions_rsp(addr):
-                self._spill()
+                    e = simp(z3.Extract(8 * (k0 + nbytes) - 1, 8 * k0, w))
+                    if nbytes == 1:
+                        _PROV[e.get_id()] = (w, k0, e)
+                    return e
+            bs = [self._rbyte(k, reg, off + i) for i in range(nbytes)]
+            return simp(z3.Concat(*reversed(bs))) if nbytes > 1 else bs[0]
         # recent-store log: exact hit on the same address/size with only provably disjoint stores since
         for a2, w2, n2 in reversed(self.hlog):
             d = simp(addr - a2)
@@ -431,14 +497,22 @@ class State:
     def store(self, addr, val, nbytes):
         addr = simp(addr)
         val = simp(val)
-        if not self.spilled:
-            off = self._stack_off(addr)
-            if off is not None:
-                for i in range(nbytes):
-                    self.frame[off + i] = (val, i)
-                return
-            if self._mentions_rsp(addr):
-                self._spill()
+        k, off = self._route(addr)
+        if k is not None:
+            reg = self.regions.get(k)
+            if reg is None:
+                reg = self.regions[k] = {}
+            elif k not in self.owned:
+                reg = self.regions[k] = dict(reg)
+            self.owned.add(k)
+            if nbytes == 1:
+                hit = _PROV.get(val.get_id())
+                if hit is not None:
+                    reg[off] = (hit[0], hit[1])     # a byte copied out of a larger word keeps its provenance
+                    return
+            for i in range(nbytes):
+                reg[off + i] = (val, i)
+            return
         h = self.heap
         for i in range(nbytes):
             h = z3.Store(h, simp(addr + bv(i)), simp(z3.Extract(8 * i + 7, 8 * i, val)) if nbytes > 1 else val)
@@ -650,6 +724,35 @@ class Machine:
         self.solver_timeout_ms = solver_timeout_ms
         self.insn_count = {}
         self.solver_checks = 0
+        self._sem_cache = {}
+
+    def semantic_rsp_offset(self, addr, pc):
+        """addr mentions RSP0 but is not syntactically RSP0+const (e.g. ((RSP0+31)/8)*8). With the psABI
+        entry alignment RSP0 = 8 (mod 16) it may still be a constant offset: guess it by evaluating at one
+        aligned value and let the solver confirm it for all aligned values."""
+        key = addr.get_id()
+        if key in self._sem_cache:
+            return self._sem_cache[key][0]
+        res = None
+        try:
+            probe = bv(0x00007ffd12345008)
+            v = simp(z3.substitute(addr, (self.RSP0, probe)))
+            if z3.is_bv_value(v):
+                c = (v.as_long() - probe.as_long()) & ((1 << 64) - 1)
+                if c >= 1 << 63:
+                    c -= 1 << 64
+                if -(1 << 24) < c < (1 << 24):
+                    sol = z3.Solver()
+                    sol.set("timeout", 5000)
+                    sol.add(z3.Extract(3, 0, self.RSP0) == bv(8, 4))
+                    sol.add(addr != self.RSP0 + bv(c))
+                    self.solver_checks += 1
+                    if sol.check() == z3.unsat:
+                        res = c
+        except Exception:
+            res = None
+        self._sem_cache[key] = (res, addr)
+        return res
 
     def fresh_bool(self, tag):
         self.nfresh += 1
@@ -1128,7 +1231,8 @@ class Machine:
             s.done = True
             s.stopped = True
             return []
-        if name is not None and self.prog.funcs.get(name) is not None and name in getattr(self, "inline", ()):
+        inl = getattr(self, "inline", ())
+        if name is not None and self.prog.funcs.get(name) is not None and (inl == "*" or name in inl):
             # inline a function defined in this file: push return address, continue there
             s.regs["rsp"] = simp(s.regs["rsp"] - bv(8))
             ra = self.fresh_bv("retaddr")
@@ -1163,6 +1267,11 @@ class Machine:
                     newheap = z3.Store(newheap, a, z3.Select(s.heap, a))
             s.hlog = []
             s.heap = newheap
+            # extern objects may be written by the callee: forget what we know about them
+            for k in list(s.regions):
+                if k != "RSP":
+                    s.regions[k] = {}
+            s.base_arr = newheap
         ev.ret_rax = s.regs["rax"]
         s.ip += 1
         return []
